@@ -5,7 +5,7 @@ import numpy as np
 
 from .. import gen_circuit as G
 from .. import ref_mv as R
-from ..simutil import KRandom
+from ..simutil import KRandom, parse_via
 
 ID = 'C18'
 TECHNIQUE = 'runtime monitoring: seeded scan circuits and TetraMAX-style STIL texts (own renderer) are parsed by the real parser; the arrays assembled by the real tests(), responses() and tests_loc() are compared cell by cell with the generator\'s expectation (chain order, cumulative inversion parity, signal-group mapping, row order, LoC transitions from an independent next-state evaluation)'
@@ -288,7 +288,7 @@ def check_case(ctx, case, idx):
     with ctx.guard('stil-raises', wit):
         b = G.build(case['net'])
         tests, resp, loc, skip_t, skip_l, stats = expectations(case, b)
-        sf = stil.parse(text)
+        sf = parse_via(stil, text, rng, ctx)
         ctx.count('files')
         ctx.count(case['style'] + '_sets')
         for k, v in stats.items():
